@@ -536,3 +536,103 @@ def install_perm_maps(module):
     """every immutables.Map that functions of `module` create from now on iterates in a harness-chosen order; Maps that are
     passed in (fields of the state) are untouched.  Also binds the name when the module does not import immutables."""
     module.immutables = _ImmutablesShim()
+
+
+# ----------------------------------------------------------------------------- randomness
+class SymRandom:
+    """
+    stand-in for the `random` module and for random.Random instances held in module globals of nrel.hive: every draw is a
+    fresh solver-chosen value of its documented range ("environment = nondeterministic stub").  Nothing in the pinned tree
+    draws random numbers inside a simulation step; the stub exists so that code which starts to do so is analysed with the
+    draws as free variables instead of one concrete pseudo-random sequence.
+    """
+
+    draws = 0
+
+    def _fresh(self, typ):
+        from crosshair.core import proxy_for_type
+
+        SymRandom.draws += 1
+        return proxy_for_type(typ, "random_draw_%d" % SymRandom.draws)
+
+    def random(self):
+        x = self._fresh(float)
+        if not ((0.0 <= x) & (x < 1.0)):
+            raise _ignore()
+        return x
+
+    def uniform(self, a, b):
+        return a + (b - a) * self.random()
+
+    def randint(self, a, b):
+        x = self._fresh(int)
+        if not ((a <= x) & (x <= b)):
+            raise _ignore()
+        return x
+
+    def randrange(self, a, b=None):
+        return self.randint(0, a - 1) if b is None else self.randint(a, b - 1)
+
+    def choice(self, seq):
+        i = self.randint(0, len(seq) - 1)
+        for k in range(len(seq)):
+            if i == k:
+                return seq[k]
+        return seq[0]
+
+    def shuffle(self, xs):
+        if len(xs) == 2 and self.randint(0, 1) == 1:
+            xs[0], xs[1] = xs[1], xs[0]
+        elif len(xs) == 3:
+            p = perm_of(self.randint(0, 5), 3) or (0, 1, 2)
+            ys = [xs[i] for i in p]
+            xs[:] = ys
+
+    def sample(self, seq, k):
+        seq = list(seq)
+        self.shuffle(seq)
+        return seq[:k]
+
+    def seed(self, *a, **k):
+        return None
+
+    def getstate(self):
+        return ()
+
+    def setstate(self, s):
+        return None
+
+    def Random(self, *a, **k):
+        return SymRandom()
+
+
+def _ignore():
+    from crosshair.util import IgnoreAttempt
+
+    return IgnoreAttempt("random draw outside its range")
+
+
+_RANDOM_SCANNED = False
+
+
+def install_random_shim():
+    """rebinds, in every loaded nrel.hive module, globals that are the `random` module or a random.Random instance (symbolic mode only)"""
+    import random as _random
+    import sys as _sys
+
+    if not boot.SYMBOLIC:
+        return 0
+    SymRandom.draws = 0  # (called at the start of every path: draw names must repeat from path to path)
+    global _RANDOM_SCANNED
+    if _RANDOM_SCANNED:
+        return 0
+    _RANDOM_SCANNED = True
+    n = 0
+    for name, mod in list(_sys.modules.items()):
+        if not name.startswith("nrel.hive") or mod is None:
+            continue
+        for g, val in list(vars(mod).items()):
+            if val is _random or isinstance(val, _random.Random):
+                setattr(mod, g, SymRandom())
+                n += 1
+    return n
